@@ -49,7 +49,10 @@ func (a uRegion) intersects(b uRegion) bool {
 }
 func (u uRegion) String() string { return fmt.Sprintf("%s[%q,%q)#%d", u.table, u.start, u.stop, u.id) }
 
-func c08Universe(bounds []string, bounds2 []string, ids []uint64) []uRegion {
+func c08Universe(bounds []string, bounds2 []string, ids []uint64, tables [2]string) []uRegion {
+	if tables[0] == "" {
+		tables = [2]string{"t", "t1"}
+	}
 	var out []uRegion
 	add := func(table string, bs []string) {
 		pts := append([]string{""}, bs...) // start points; "" = -inf
@@ -65,8 +68,8 @@ func c08Universe(bounds []string, bounds2 []string, ids []uint64) []uRegion {
 			}
 		}
 	}
-	add("t", bounds)
-	add("t1", bounds2)
+	add(tables[0], bounds)
+	add(tables[1], bounds2)
 	return out
 }
 
@@ -81,6 +84,9 @@ type c08Cfg struct {
 	ids            []uint64
 	before, after  int
 	differential   bool
+	// the two tables of the universe ("" = t and its prefix-named sibling t1); a name with a
+	// ':' has a namespace, which is part of the region name but a separate field of the info
+	tables [2]string
 }
 
 func c08Configs(thorough bool) []c08Cfg {
@@ -90,11 +96,24 @@ func c08Configs(thorough bool) []c08Cfg {
 		out = append(out, c08Cfg{name: fmt.Sprintf("bounds=%d,ids=%d,before=%d,after=%d", len(bounds), len(ids), before, after),
 			bounds: bounds, b2: []string{"d"}, ids: ids, before: before, after: after, differential: diff})
 	}
+	// the same universe for a table in a namespace, next to the default-namespace table of
+	// the same qualifier, and next to a prefix-named table of its own namespace
+	ns := func(before int, diff bool) {
+		for _, tb := range [][2]string{{"ns:t", "t"}, {"ns:t", "ns:t1"}} {
+			out = append(out, c08Cfg{name: fmt.Sprintf("tables=%s+%s,bounds=3,ids=2,before=%d,after=0", tb[0], tb[1], before),
+				bounds: b3, b2: []string{"d"}, ids: []uint64{1, 2}, before: before, differential: diff, tables: tb})
+		}
+	}
 	if !thorough {
 		for _, f := range [][2]int{{0, 0}, {1, 0}, {0, 1}, {2, 1}, {63, 0}, {64, 1}, {65, 0}, {31, 1}} {
 			mk(f[0], f[1], b3, []uint64{1, 2}, f[0] == 0)
 		}
+		ns(0, true)
+		ns(2, false)
 		return out
+	}
+	for _, bf := range []int{0, 1, 2, 63, 64} {
+		ns(bf, bf == 0)
 	}
 	for _, bf := range []int{0, 1, 2, 30, 31, 32, 33, 62, 63, 64, 65, 127, 128, 130} {
 		for _, af := range []int{0, 1} {
@@ -379,7 +398,7 @@ func c08Direct(c *Ctx) {
 		if c.Filter != "" && c.Filter != cfg.name {
 			continue
 		}
-		run := &c08Run{cfg: cfg, univ: c08Universe(cfg.bounds, cfg.b2, cfg.ids)}
+		run := &c08Run{cfg: cfg, univ: c08Universe(cfg.bounds, cfg.b2, cfg.ids, cfg.tables)}
 		run.byName = map[string]int{}
 		for i, u := range run.univ {
 			run.names = append(run.names, u.name())
@@ -490,7 +509,7 @@ type c08ConcObs struct {
 
 func c08ConcUnits(thorough bool) []*explore.Unit {
 	cfg := c08Cfg{name: "concurrent", bounds: []string{"b", "d", "f"}, b2: []string{"d"}, ids: []uint64{1, 2}}
-	run := &c08Run{cfg: cfg, univ: c08Universe(cfg.bounds, cfg.b2, cfg.ids)}
+	run := &c08Run{cfg: cfg, univ: c08Universe(cfg.bounds, cfg.b2, cfg.ids, cfg.tables)}
 	run.byName = map[string]int{}
 	for i, u := range run.univ {
 		run.names = append(run.names, u.name())
@@ -498,7 +517,7 @@ func c08ConcUnits(thorough bool) []*explore.Unit {
 	}
 	nt := 0
 	for i, u := range run.univ {
-		if u.table == "t" {
+		if u.table == run.univ[0].table {
 			nt = i + 1
 		}
 	}
@@ -614,7 +633,7 @@ func init() {
 		Units: c08ConcUnits,
 		ID: "C08", Level: "model_checking",
 		Technique: "explicit-state breadth-first search over the real location cache (every transition executed on the implementation) against an interval model",
-		Rule: "(concurrent part: every pair of intersecting puts, some with a delete, from several initial states, all schedules with <=2 deviations, outcome must be linearizable and overlap-free) state = canonical set of cached regions from a universe of all intervals over 3-4 boundary points x 2-3 ids for table t plus a prefix-named table t1; transitions = put(r)/del(r) for every r, each executed on a real keyRegionCache rebuilt by replaying the shortest path; repeated with 0..130 filler regions of other tables before/after to move the entries across B-tree page boundaries. Non-trivial = transition from a non-empty state.",
+		Rule: "(concurrent part: every pair of intersecting puts, some with a delete, from several initial states, all schedules with <=2 deviations, outcome must be linearizable and overlap-free) state = canonical set of cached regions from a universe of all intervals over 3-4 boundary points x 2-3 ids for table t plus a prefix-named table t1 - and again for a namespaced table ns:t next to the default-namespace table t and next to ns:t1; transitions = put(r)/del(r) for every r, each executed on a real keyRegionCache rebuilt by replaying the shortest path; repeated with 0..130 filler regions of other tables before/after to move the entries across B-tree page boundaries. Non-trivial = transition from a non-empty state.",
 		Assumptions: []string{"regions with equal ids and different names: winner left open by the statement, only the invariant is required", "universe bounded to 4-5 boundary points, 2-3 ids, two tables plus fillers"},
 		Quick:       60 * time.Second, Thorough: 12 * time.Minute,
 		Direct: c08Direct,
